@@ -89,6 +89,44 @@ func (p c04) Gen(r *simhook.Rand, tier string, idx int) harness.Scenario {
 	if r.Chance(1, 4) {
 		sc.Env.FragNum, sc.Env.FragDen = 1, 3
 	}
+	if r.Chance(1, 14) {
+		// class "crash-then-removed": a master dies (its replica takes over), discovery withdraws the dead node from the
+		// host list, and well after that its former slots are read and written again: their owner is reachable and the
+		// proxy has been told that the old one is gone.
+		sc.Class = "crash-then-removed"
+		sc.Env = world.RedisCfg{Masters: 2, Replicas: 1}
+		sc.SlackMs = []int{0, 1, 200}[r.Intn(3)]
+		ks := keysForNodes(r, 2, "cr", 3)
+		for n := range ks {
+			for i, kk := range ks[n] {
+				sc.Env.Preload = append(sc.Env.Preload, world.KV{K: world.Bin(kk), V: world.Bin(uniqueVal("pre", n*10+i, 10))})
+			}
+		}
+		dead := r.Intn(2)
+		cs := ConnScript{Name: "c0"}
+		for i := 0; i < 3+r.Intn(4); i++ {
+			cs.Reqs = append(cs.Reqs, world.Request{Args: world.Bins("GET", ks[r.Intn(2)][r.Intn(3)]), Wait: true})
+		}
+		// idle while the crash and the removal happen (the connection to the dead master is lost without a request in flight)
+		for i := 0; i < 4+r.Intn(6); i++ {
+			rq := world.Request{Args: world.Bins("GET", ks[dead][r.Intn(3)]), Wait: true}
+			if i == 0 {
+				rq.Gap = 100000
+			}
+			if r.Chance(1, 3) {
+				rq.Args = append(world.Bins("SET", ks[dead][r.Intn(3)]), world.Bin(uniqueVal("w", i, 8)))
+			}
+			cs.Reqs = append(cs.Reqs, rq)
+		}
+		sc.Conns = []ConnScript{cs}
+		// the replica of master i is node 2+i
+		sc.Faults = []Fault{
+			{Kind: "failover-crash", Node: 2 + dead, AtMs: 5000 + r.Intn(10000)},
+			{Kind: "host-remove", Node: dead, AtMs: 20000 + r.Intn(20000)},
+		}
+		sc.HorizonS = 900
+		return sc
+	}
 	if r.Chance(1, 12) {
 		// class "refresh-in-flight+crash": a slot moves while the reply of a periodic CLUSTER NODES request is on its way
 		// back; a read of that slot is redirected before the reply is processed; then the old owner dies (its replica
@@ -430,11 +468,33 @@ func (p c04) Run(t *testing.T, s harness.Scenario) harness.Outcome {
 		for i, c := range w.env.Clients {
 			connIdx[c.Name] = i
 		}
+		// toldGone: the master that died in crash i was withdrawn from the service's host list (discovery told the proxy
+		// that it is gone) long before the request was invoked - a refresh round plus the timer slack of each of its
+		// few dozen scheduling points; no node was slow or kept announcing an old layout in this scenario
+		toldGone := func(i int, sn *world.Sent) bool {
+			if i >= len(w.crashMasters) {
+				return false
+			}
+			at, ok := w.hostRemoved[w.crashMasters[i]]
+			if !ok {
+				return false
+			}
+			for _, f := range sc.Faults {
+				if f.Kind == "stall" || f.Kind == "freeze-view" || f.Kind == "silent" {
+					return false
+				}
+			}
+			learn := 30*time.Second + 40*time.Duration(sc.SlackMs)*time.Millisecond
+			return sn.InvokeTime.After(at.Add(learn))
+		}
 		admitted := func(sn *world.Sent, key []byte) bool {
 			// errors are admitted only around a crash fail-over: the request must not have been invoked later than
 			// the horizon after the crash, must not have completed before it, and its key must live in a slot the
 			// crashed master had to do with (owned, migrating or importing) - the other slots' owners are reachable
 			for i, cs := range w.crashSteps {
+				if toldGone(i, sn) {
+					continue
+				}
 				if sn.DoneStep >= cs && sn.InvokeTime.Before(w.crashTimes[i].Add(w.horizon())) && (i >= len(w.crashSlots) || w.crashSlots[i][cluster.Slot(key)]) {
 					return true
 				}
@@ -627,6 +687,11 @@ func (p c04) Run(t *testing.T, s harness.Scenario) harness.Outcome {
 							failing := sentOf[[2]int{in.conn, in.idx}]
 							if failing == nil || len(w.crashSteps) == 0 || failing.DoneStep < w.crashSteps[0] {
 								continue
+							}
+							if toldGone(0, failing) {
+								clause = "error-after-removal-of-the-dead-master"
+								note = "; the dead master had been withdrawn from the host list long before the failing request (30 simulated seconds plus 40 times the timer slack): the proxy had been told, and the slot's owner is reachable"
+								break
 							}
 							taught := false
 							for _, c := range w.env.Clients {
